@@ -31,6 +31,7 @@ class Ctx:
         from . import terms as _terms
         _terms.SIGS = self.prog.signatures()  # keyword arguments of package callables are rendered positionally
         _terms.SIGS.setdefault("open", ("file", "mode", "buffering", "encoding", "errors", "newline"))
+        _terms.SIGS.setdefault("pad", ("array", "pad_width", "mode"))  # numpy.pad
         self.obs = []
         self.notes = []
         self.analysed = {}  # rule -> free-form facts about what was analysed
